@@ -1,5 +1,5 @@
 (* C02 — sealed frames.  Property theorems only; proofs in FrameProofs.v. *)
-From Verif Require Import Prelude Gen Frame FrameProofs Seq SeqProofs Translated.
+From Verif Require Import Prelude Gen Frame FrameProofs Seq SeqProofs Translated TranslatedDec.
 
 (* Layout: a built frame parses to the indices it was built with and every accessor returns
    the input it was built from (all message types, payload 1..limit, switch block 0..255,
@@ -145,3 +145,24 @@ Theorem C02_source_message_type_tables : forall t, t < 256 ->
   Gen.go_MessageType_IsEncrypted t = Gen.is_enc t.
 Proof. exact go_message_type_tables. Qed.
 Print Assumptions C02_source_message_type_tables.
+
+(* the translated source of ParseFrame / ParseFrameV1 (harness/gen_translate_dec.go, regenerated
+   every run): for every byte string the translated decoder returns the model's indices, or an
+   error where the model returns one; it never reads a byte or takes a slice outside the frame.
+   The layout theorems above are therefore theorems about what the Go source computes. *)
+Theorem C02_source_parse_is_model : forall d, bytes_ok d ->
+  dres_idx (Gen.go_Builder_ParseFrame d) = forget_code (parse d).
+Proof. intros d H. apply go_parse_is_model; [exact H | reflexivity | reflexivity]. Qed.
+Print Assumptions C02_source_parse_is_model.
+
+(* ... and the accessors the crypto ranges are built from are the Go source's slice expressions *)
+Theorem C02_source_accessors_are_model : forall d ix, parse d = Ok ix ->
+  let L := Z.of_nat (length d) in
+  let M := Z.of_nat (mi ix) in let A := Z.of_nat (ai ix) in let X := Z.of_nat (xi ix) in
+  zrange d (Gen.go_FrameV1_SwitchBlock L M) = Some (switch_block d ix) /\
+  zrange d (Gen.go_FrameV1_MessageData L M A) = Some (msg_part d ix) /\
+  zrange d (Gen.go_FrameV1_MessageDataWithAuth L M X) = Some (ct_part d ix) /\
+  zrange d (Gen.go_FrameV1_AuthData L A X) = Some (auth_part d ix) /\
+  zrange d (Gen.go_FrameV1_AppendixData L X) = Some (apx_part d ix).
+Proof. exact go_accessors_are_model. Qed.
+Print Assumptions C02_source_accessors_are_model.
